@@ -200,11 +200,33 @@ def check_functions(prog, funcs, funclabels, parse_nodes):
             if n["kind"] == "JumpLink" and n.get("name") == "<return>":
                 if not any(is_ret(prog.nodes[j]) for j in n["nexts"]):
                     return f"function at {f['entry']}: merged return {i} does not lead to a return"
+                # the edge exists as seen from both of its ends (the analyses walk it in both directions)
+                for j in n["nexts"]:
+                    if is_ret(prog.nodes[j]) and i not in prog.nodes[j]["prevs"]:
+                        return (f"function at {f['entry']}: merged return {i} leads to the return {j}, which does not "
+                                f"list it among its predecessors")
     for n in prog.nodes:
         want = sorted(f["entry"] for f in funcs if n["i"] in f["nodes"])
         if sorted(n["funcs"]) != want:
             return f"node {n['i']}: owners {n['funcs']} but it lies in the bodies of {want}"
     return None
+
+
+def check_sharing(prog, lint_lines):
+    """C11, last clause: sharing of instructions between functions is reported exactly when it exists.
+    Returns (error or None, class) - class 'unreported-tail' is the known finding F-16 (only entries that lie
+    inside another function are looked at by the lint)."""
+    shared = [n for n in prog.nodes if len(set(n["funcs"])) > 1]
+    reported = [l for l in lint_lines if "code=node-in-many-functions" in l]
+    if reported and not shared:
+        return "sharing of instructions between functions is reported but no instruction has two owners", "false-report"
+    shared_entries = [n for n in shared if n["kind"] == "FuncEntry"]
+    if shared_entries and len(reported) < len(shared_entries):
+        return (f"{len(shared_entries)} function entries lie inside another function, "
+                f"{len(reported)} reports of sharing"), "entry-unreported"
+    if shared and not reported:
+        return None, "unreported-tail"
+    return None, "shared-reported" if shared else "no-sharing"
 
 
 # ------------------------------------------------------------------------------------------ C02
